@@ -16,7 +16,7 @@ from ..symx import render
 META = {
     "level": "other",
     "technique": "comparator truth tables on raw-vs-compressed decisions, symbolic comparison (E5) of probe start/step and key-derivation expressions across sibling functions, flag-vocabulary inclusion over the resolved call graph",
-    "claim": "Decides that writer and reader agree on when data is compressed, on hash-table probing, on file-key derivation (incl. the position-adjusted key) and on the block-flag vocabulary, at every site. Does not decide bit-identical content for all inputs × configurations, HET/BET bit packing, or reported sizes. Also: the bound a reader compares the stored size with is the size it decompresses to; every sector-count site computes ceil(size/sector_size) (finite grid); sibling readers add the same position operand into the adjusted key; the key is derived from the final flags. Wave 5: the size operand of the adjusted key resolves to the file's uncompressed size on every branch of every reader. Wave 6: a writer that sets the sector-CRC flag reaches the checksum writer on every success path (incl. empty files); the sparse decoder appends min(run, bytes owed); the position-adjusted key takes the uncompressed size on every writer; (V3/V4) BET name hashes come from the function the BET verifier recomputes, the HET free-slot marker is one value below 0x80 on writer and reader side, and no second method byte precedes compress()'s result. Wave 7: every HET candidate is confirmed by a successful BET hash test before it becomes file info (MIR dominance); the stored-name normalisation applies only '/' -> '\\'; one cipher block per single-unit file is chosen by the SINGLE_UNIT flag alone; the builder's HET/BET code path is gated by the reader's version rule; BET entries are packed without a 64-bit ceiling; never-expands (shared with C03).",
+    "claim": "Decides that writer and reader agree on when data is compressed, on hash-table probing, on file-key derivation (incl. the position-adjusted key) and on the block-flag vocabulary, at every site. Does not decide bit-identical content for all inputs × configurations, HET/BET bit packing, or reported sizes. Also: the bound a reader compares the stored size with is the size it decompresses to; every sector-count site computes ceil(size/sector_size) (finite grid); sibling readers add the same position operand into the adjusted key; the key is derived from the final flags. Wave 5: the size operand of the adjusted key resolves to the file's uncompressed size on every branch of every reader. Wave 6: a writer that sets the sector-CRC flag reaches the checksum writer on every success path (incl. empty files); the sparse decoder appends min(run, bytes owed); the position-adjusted key takes the uncompressed size on every writer; (V3/V4) BET name hashes come from the function the BET verifier recomputes, the HET free-slot marker is one value below 0x80 on writer and reader side, and no second method byte precedes compress()'s result. Wave 7: every HET candidate is confirmed by a successful BET hash test before it becomes file info (MIR dominance); the stored-name normalisation applies only '/' -> '\\'; one cipher block per single-unit file is chosen by the SINGLE_UNIT flag alone; the builder's HET/BET code path is gated by the reader's version rule; BET entries are packed without a 64-bit ceiling; never-expands (shared with C03). Wave 8: the compressor's reader pre-check and the listing's seen-set / member-aware listfile reader are armed here (shared with C03 / C07); ArchiveBuilder / OpenOptions setters keep the other settings.",
     "note": "Trusted: compress() store-raw rule (C03), hash_string (C04). Expressions are compared after AC normalisation; integer casts are transparent.",
     "assumptions": ["sector size is always 512 << shift via header.sector_size()"],
     "explanation": "compress / read_file / read_sectored_file / read_file_by_indices / prepare_file_data decisions; HashTable::find_file, ArchiveBuilder::add_to_hash_table, MutableArchive::{find_file_entry, add_to_hash_table}; calculate_file_key vs three reader derivations; FLAG_* written vs read.",
